@@ -27,6 +27,20 @@ func (p *ContinuousPool) Start(ctx context.Context) {
 	workerCtx, workerCtxCancel := context.WithCancel(ctx)
 	p.workerCtxCancel = workerCtxCancel
 
+	// context.Done() and context.Err() for context that can be cancelled use a Lock.
+	// To avoid frequent locking - use an atomic.Bool for cancellation instead of checking the
+	// context on each iteration
+	//
+	// The flag must be up before the first worker looks at it when the context has ended
+	// already (a run interrupted while the pool was being built): no iteration may start then.
+	if workerCtx.Err() != nil {
+		p.stopWorkers.Store(true)
+	}
+	go func() {
+		<-workerCtx.Done()
+		p.stopWorkers.Store(true)
+	}()
+
 	workersStarted := sync.WaitGroup{}
 
 	workersStarted.Add(p.numWorkers)
@@ -34,14 +48,6 @@ func (p *ContinuousPool) Start(ctx context.Context) {
 	for _, iterationState := range p.iterationStatePool {
 		go p.startWorker(iterationState, &workersStarted)
 	}
-
-	// context.Done() and context.Err() for context that can be cancelled use a Lock.
-	// To avoid frequent locking - use an atomic.Bool for cancellation instead of checking the
-	// context on each iteration
-	go func() {
-		<-workerCtx.Done()
-		p.stopWorkers.Store(true)
-	}()
 }
 
 func (p *ContinuousPool) maxIterationsReached() {
